@@ -3,6 +3,7 @@ From Coq Require Import List Bool ZArith.
 From Otto Require Import Common.Corr.
 From Otto Require Export C01.Full.
 From Otto Require Export C01.Sem C01.Wf C01.Lang.
+From Otto Require Import C01.Embed.
 Import ListNotations.
 Open Scope Z_scope.
 
@@ -78,6 +79,17 @@ Definition verdict (c : case) : Z * Z :=
       | _, _ =>
         if has_big (out so) oo || has_big (out ss) os then declined else
         if negb agree then (3, 9) else
+        (* the ES5-style semantics and the MiniJS+ reference semantics are two independent readings of ES5:
+           on global code they must give the same log and outcome (class 10 = they do not) *)
+        let cross :=
+          if mode =? 0 then
+            let '(fl, fo) := Full.run_program ffuel (eprog declared p) in
+            match fo with
+            | FOutOfFuel | FDeclined => true
+            | _ => list_eqb fval_eqb fl (map eval_val (out ss)) && fout_eqb fo (eoutcome os)
+            end
+          else true in
+        if negb cross then (3, 10) else
         judge obs_eqb (lg, oc) (out so, project mode oo) (out ss, project mode os)
               (if wf (SBlock p) then 0 else 1)
       end
